@@ -294,6 +294,55 @@ func c10Rel(x *mc.Exec) {
 	}
 }
 
+// c10Reuse: a Filter value is reused with another filter value (assigned, or
+// edited in place) and on another resource; every verdict must equal the one
+// of a fresh Filter (a filter that memoises anything about its value or about
+// the resource would differ).
+func c10Reuse(x *mc.Exec) {
+	soft := x.Choose(2, "impl") == 0
+	impl := implName(soft)
+	d := TypeD{Name: "t", Attrs: []AttrD{{"a", kStr}}, Rels: []RelD{{"one", true, "t", ""}, {"many", false, "t", ""}}}
+	lists := [][]string{{"a", "b"}, {"b", "a"}, {"a", "c"}, {"c", "d"}, {"a"}, {"b"}, {}}
+	ops := []string{"=", "!="}
+	op := ops[x.Choose(len(ops), "op")]
+	r1 := lists[x.Choose(len(lists), "resource list 1")]
+	r2 := lists[x.Choose(len(lists), "resource list 2")]
+	fresh := func(rl, fl []string) bool {
+		res := d.NewRes(soft)
+		res.Set("many", append([]string{}, rl...))
+		return (&j.Filter{Field: "many", Op: op, Val: append([]string{}, fl...)}).IsAllowed(res)
+	}
+	f := &j.Filter{Field: "many", Op: op}
+	desc := fmt.Sprintf("%s op %s resources %v,%v:", impl, op, r1, r2)
+	for step := 0; step < 3; step++ {
+		fl := lists[x.Choose(len(lists), "filter list")]
+		inPlace := x.Bool("edit in place")
+		if cur, ok := f.Val.([]string); ok && inPlace && len(cur) == len(fl) {
+			copy(cur, fl)
+		} else {
+			f.Val = append([]string{}, fl...)
+		}
+		rl := r1
+		if step%2 == 1 {
+			rl = r2
+		}
+		res := d.NewRes(soft)
+		res.Set("many", append([]string{}, rl...))
+		var got bool
+		p := Try(func() { got = f.IsAllowed(res) })
+		want := fresh(rl, fl)
+		x.R.Add("transitions", 2)
+		desc += fmt.Sprintf(" %v on %v;", fl, rl)
+		if p != "" || got != want {
+			x.Fail("C10:reuse:"+impl, "%s the reused filter answers %v (panic %q), a fresh filter answers %v", desc, got, p, want)
+			return
+		}
+	}
+	x.Render(desc)
+	x.R.Mark("nontrivial", mc.Hash(desc))
+	x.R.Sample("reuse", desc)
+}
+
 // c10Tree enumerates every and/or tree within (depth, fan-out) over two leaves
 // of known truth value and compares IsAllowed with the tree read as logic.
 func c10Tree(x *mc.Exec) {
@@ -363,12 +412,13 @@ func init() {
 	Register(&Prop{
 		ID: "C10",
 		Rule: "Engine A, all choices Full: (28 kinds x {soft,wrapped} x 8 operators x all ordered pairs of the kind's boundary alphabet incl. nil) + relationship leaves (to-one =,!=,in; to-many =,!=,has,order ops) + every and/or tree of depth<=2 and fan-out<=2 (thorough: fan-out<=3) over a true and a false leaf; " +
-			"oracle = independent evaluator (math/big, bytes.Compare, time.Before) plus trichotomy/complement/<= laws; a leaf case is non-trivial when the two values differ or one is nil, a tree when it has at least one operator node",
+			"+ one Filter value reused over 3 steps with its value reassigned or edited in place (all sequences over 7 ID lists), compared with fresh filters; oracle = independent evaluator (math/big, bytes.Compare, time.Before) plus trichotomy/complement/<= laws; a leaf case is non-trivial when the two values differ or one is nil, a tree when it has at least one operator node",
 		Assumptions: []string{"well-typed filters only: the filter value has the Go type of the attribute (pointer, possibly typed nil, for nullable kinds)", "ordering of to-one IDs is not judged (statement silent)"},
 		Harnesses: []Harness{
 			{Name: "C10/leaf", Body: c10Leaf, ShardDepth: 1},
 			{Name: "C10/rel", Body: c10Rel},
 			{Name: "C10/tree", Body: c10Tree},
+			{Name: "C10/reuse", Body: c10Reuse},
 		},
 	})
 }
